@@ -106,6 +106,9 @@ class FakePort:
     (bytes / SymBytes, b'' for a timeout) or raises; ``on_write(port, payload)`` may raise to model a
     write fault and may queue replies."""
 
+    port = "/dev/ttyACM0"       # pyserial's Serial.port: the device path (several fake ports may share it, like re-plugged boards)
+    name = "/dev/ttyACM0"
+
     def __init__(self, responder=None, on_write=None, sym=False):
         self.sym = sym          # return SymBytes even for concrete lines (needed when requests are SymStr)
         self.writes = []        # decoded payloads (SymStr), in order
